@@ -8,7 +8,7 @@ git -C /repo worktree add --detach -f "$S" HEAD >/dev/null 2>&1 || { echo "canno
 cleanup() { rm -rf "$S/target"; git -C /repo worktree remove --force "$S" >/dev/null 2>&1; }
 trap cleanup EXIT
 cd "$S"
-CMD=$(grep -v '^#' "$D/run.txt" | grep cargo | head -1)
+CMD=$(grep -v "^#" "$D/run.txt" | grep "cargo test" | head -1 | sed "s/.*&& *cargo test/cargo test/")
 crate=vhost; echo "$CMD" | grep -q "vhost-user-backend" && echo "$CMD" | grep -q -- "-p vhost-user-backend" && crate=vhost-user-backend
 mkdir -p $crate/tests
 for f in "$D"/*.rs; do cp "$f" $crate/tests/; done
